@@ -387,6 +387,17 @@ def run_case(concepts, case, spec):
         call(lat.__getitem__, slice(None, None, 2))
         call(lat.__getitem__, slice(-2, None))
         call(lat.__getitem__, n + 3)      # IndexError: out of scope
+        sl_ = call(lat.__getitem__, slice(0, min(n, 4)))
+        if sl_ is not RAISED and isinstance(sl_, list):
+            sl_.reverse()                 # the caller owns the returned list
+            sl_.clear()
+            call(lat.__getitem__, slice(0, min(n, 4)))
+            call(lat.__getitem__, 0)
+    for sub in rng.sample(keys, min(len(keys), 15)):     # the same questions again, later
+        call(ctx.__getitem__, list(reversed(sub)))
+        call(lat.__getitem__, tuple(sub))
+    if False:
+        pass
     old = POOL.older(rng)
     if old is not None:
         octx, olat = old
